@@ -420,6 +420,10 @@ DIRECTED = [
     ('if a :\n    old', [0, 3, 0, 4], 'a: b\nelse'),
     ('def f():\n    while a  :\n        old\n', [1, 10, 1, 11], 'a: b\n    else'),
     ('for i in xs  :\n    y\n', [0, 9, 0, 11], 'xs: pass #'),
+    # multi-line statement that starts on line 0 after a semicolon / a block header (try: wrapper with several lines)
+    ('x = 1; y = [1,\n 2]\nz = 3', [1, 1, 1, 2], '22'),
+    ('if a: y = (1,\n  2)\nz = 3', [0, 11, 1, 3], '4,\n 5,\n 6'),
+    ('x = 1; y = [1,\n 2]', [0, 12, 0, 13], 'k'),
     # whole statement in each wrapper family
     ('def f():\n    try:\n        a\n    except E as e:\n        b\n    except F:\n        c\n', [4, 8, 4, 9], 'bb = 1'),
     ('def f():\n    match x:\n        case 1:\n            pass\n        case [a, b] if a:\n            y = 2\n', [5, 16, 5, 17], '33'),
@@ -489,7 +493,7 @@ def _histories(ctx):
 
 def _header_family(ctx):
     """every block statement kind x optional blocks x nesting: edits wholly inside the header, one per fresh tree"""
-    edits = ops.header_edits()
+    edits = ops.header_edits() + ops.span_edits()
     res = pmap(ops.run_sequence, [(src, 0, 0, ['put_src'], [e]) for src, e, _ in edits])
     recs = []
     for (src, e, label), lst in zip(edits, res):
